@@ -196,7 +196,7 @@ func (w *World) passSilence(fns []*ssa.Function) []DFResult {
 
 // isLogLevelFn: a module function `logLevel*` (free function or method) returning bool.
 func isLogLevelFn(f *ssa.Function) bool {
-	if f == nil || !inModule(f) || !strings.HasPrefix(f.Name(), "logLevel") {
+	if f == nil || !inModule(f) {
 		return false
 	}
 	r := f.Signature.Results()
@@ -204,7 +204,27 @@ func isLogLevelFn(f *ssa.Function) bool {
 		return false
 	}
 	b, ok := r.At(0).Type().Underlying().(*types.Basic)
-	return ok && b.Kind() == types.Bool
+	if !ok || b.Kind() != types.Bool {
+		return false
+	}
+	if strings.HasPrefix(f.Name(), "logLevel") {
+		return true
+	}
+	// any predicate whose only call is zerolog's Logger.GetLevel (e.g. jpeg.logInfo)
+	if !strings.HasPrefix(f.Name(), "log") || len(f.Blocks) > 3 {
+		return false
+	}
+	n := 0
+	other := false
+	eachCall(f, func(ins ssa.Instruction, com *ssa.CallCommon) {
+		pkg, name := calleeOf(com)
+		if pkg == "github.com/rs/zerolog" && name == "Logger.GetLevel" {
+			n++
+		} else if !(pkg == "builtin" && strings.HasPrefix(name, "ssa:")) {
+			other = true
+		}
+	})
+	return n > 0 && !other
 }
 
 // logLevelValue: v is (derived from) a log-level predicate: a call of logLevel*, a GetLevel() comparison, or a load of
@@ -389,8 +409,8 @@ func isVarargsStore(st *ssa.Store) bool {
 func (w *World) passLogRegions(fns []*ssa.Function) []DFResult {
 	var out []DFResult
 	for _, fn := range fns {
-		if isLogLevelFn(fn) || strings.HasPrefix(fn.Name(), "log") {
-			continue // the predicates and log helpers themselves
+		if isLogLevelFn(fn) {
+			continue // the predicates themselves
 		}
 		n := 0
 		for _, b := range fn.Blocks {
